@@ -23,6 +23,28 @@ def entry(id, rules, terms=None, maxlen=4, alphabet=None, inputs=()):
 S, A, B, C, D, E, F, T = 11, 12, 13, 14, 15, 16, 17, 18
 
 
+
+def untranslated_tails():
+    """Rules whose LAST symbols are not translated while an earlier one is: S : X m... Z with only X (or a middle symbol) in the
+    translation, X and Z each deriving one or two tokens, so the untranslated Z has several origins and every origin is another split
+    with another translation of the earlier symbols.  Shapes: 0-2 untranslated symbols between the translated one and Z, with and without
+    abstract node, both orders of Z's alternatives, a terminal or a nonterminal in the middle."""
+    out = []
+    X, Y, Z = 12, 13, 14
+    xs = [R(X, [1], 2, 1, [1]), R(X, [1, 1], 3, 2, [1, 2])]
+    ys = [R(Y, [1], 4, 1, [1])]
+    for zi, zs in enumerate(([R(Z, [1]), R(Z, [1, 1])], [R(Z, [1, 1]), R(Z, [1])], [R(Z, [1], 5, 1, [1]), R(Z, [1, 1], 6, 1, [1, 2])])):
+        for mi, mid in enumerate(([], [Y], [1], [Y, Y], [1, Y])):
+            for ti, (an, t) in enumerate(((1, [1]), (0, [1]), (1, [1, 0]))):
+                rules = [R(S, [X] + mid + [Z], an, 1 if an else 0, t)] + xs + (ys if Y in mid else []) + zs
+                out.append(entry("untail-z%d-m%d-t%d" % (zi, mi, ti), rules, maxlen=0, alphabet=[1],
+                                 inputs=[[1] * k for k in range(2 + len(mid), 5 + len(mid))]))
+        # the translated symbol in the middle, untranslated symbols on both sides
+        rules = [R(S, [Y, X, 1, Z], 1, 1, [2])] + xs + ys + zs
+        out.append(entry("untail-z%d-mid" % zi, rules, maxlen=0, alphabet=[1], inputs=[[1] * k for k in range(4, 8)]))
+    return out
+
+
 def curated():
     c = []
     # 1 the test suite's expression grammar: E : E + T | T ; T : T * F | F ; F : a | ( E )   (+=2 *=3 (=4 )=5 a=1)
